@@ -503,7 +503,7 @@ class IndexReader(object):
                 yield (vec.id(), vec.weight())
                 vec.next()
         else:
-            format_ = self.schema[fieldname].format
+            format_ = self.schema[fieldname].vector
             decoder = format_.decoder(astype)
             while vec.is_active():
                 yield (vec.id(), decoder(vec.value()))
